@@ -1,6 +1,7 @@
 package main
 
 import (
+	"fmt"
 	"sync"
 
 	"github.com/pojntfx/panrpc/go/pkg/rpc"
@@ -14,8 +15,9 @@ type traceRec struct {
 }
 
 func (t *traceRec) add(point, key string) {
+	g := fmt.Sprint(goid())
 	t.mu.Lock()
-	t.evs = append(t.evs, Event{"", point, key})
+	t.evs = append(t.evs, Event{g, point, key})
 	t.mu.Unlock()
 }
 
@@ -28,8 +30,8 @@ func (t *traceRec) events() []Event {
 // startTraceRec installs a recorder for the lifetime of a workload; stop() removes it.
 func startTraceRec() (*traceRec, func()) {
 	t := &traceRec{}
-	rpc.SetVerifHooks(t.add, nil)
-	utils.SetVerifHooks(t.add, nil)
+	rpc.SetVerifHooks(t.add, t.add) // yield points are recorded too (never parked here)
+	utils.SetVerifHooks(t.add, t.add)
 	return t, func() { rpc.SetVerifHooks(nil, nil); utils.SetVerifHooks(nil, nil) }
 }
 
